@@ -8,7 +8,7 @@ and container updates and the number of rejecting checks before its first write 
 `Generated/C03Mutators.lean`; the obligations on that table are discharged by computation on the generated
 definitions (`C03_table_*`), so a removed decorator or a moved `_remove_id` breaks this file on the next run.
 -/
-import MxlVerif.Lemmas.C03Ids
+import MxlVerif.Lemmas.C03Det
 namespace Mxl.C03
 open Mxl
 
@@ -447,6 +447,76 @@ theorem C03_freed_name_reusable (h : List HOp) (rm : Op) (n : Name)
     show (addVariable n v (step s rm).1).2 = .ok ()
     rw [h2]
 
+/-! ## the future depends on the content only; a rejected edit cannot be seen, now or later -/
+
+/-- Two histories that end with the same content (and the same function objects) answer EVERY query alike —
+    whatever was added, removed, queried or rejected on the way. -/
+theorem C03_content_determines_answers (h1 h2 : List HOp)
+    (hc : (run init h1).content = (run init h2).content) (hg : (run init h1).sigs = (run init h2).sigs)
+    (q : Query) : (query (run init h1) q).2 = (query (run init h2) q).2 := by
+  by_cases hq : q = .eqFresh
+  · subst hq; rw [C03_eq_fresh h1, C03_eq_fresh h2]
+  · rw [C03_fresh_equiv h1 q hq, C03_fresh_equiv h2 q hq, hc, hg]
+
+/-- …and they have the same future: continued by ANY common history (edits accepted or rejected, queries, deep
+    copies) they keep the same content, ids and signatures, answer every query alike and accept / reject every
+    mutator call alike.  The memoised cache — the only thing in which the two models may differ — never shows. -/
+theorem C03_same_content_same_future (h1 h2 : List HOp)
+    (hc : (run init h1).content = (run init h2).content) (hi : (run init h1).ids = (run init h2).ids)
+    (hg : (run init h1).sigs = (run init h2).sigs) (h : List HOp) :
+    (run init (h1 ++ h)).content = (run init (h2 ++ h)).content ∧
+    (run init (h1 ++ h)).ids = (run init (h2 ++ h)).ids ∧
+    (run init (h1 ++ h)).sigs = (run init (h2 ++ h)).sigs ∧
+    (∀ q, (query (run init (h1 ++ h)) q).2 = (query (run init (h2 ++ h)) q).2) ∧
+    (∀ op given, (stepS (run init (h1 ++ h)) op given).2 = (stepS (run init (h2 ++ h)) op given).2) := by
+  have hsim : Sim (run init h1) (run init h2) :=
+    ⟨forget_eq_iff.mpr ⟨hc, hi, hg⟩, C03_cache_valid h1, C03_cache_valid h2⟩
+  rw [run_append, run_append]
+  exact sim_obs (run_sim h hsim)
+
+/-- A rejected edit changes NOTHING a user can see: content, ids and the stored functions' signatures are exactly
+    as before and the cache is still valid (empty or what `_create_cache` builds) — for every mutator, after any
+    history. -/
+theorem C03_rejected_state (h : List HOp) (op : Op) (given) (e : Err)
+    (hr : (stepS (run init h) op given).2 = .error e) :
+    (stepS (run init h) op given).1.content = (run init h).content ∧
+    (stepS (run init h) op given).1.ids = (run init h).ids ∧
+    (stepS (run init h) op given).1.sigs = (run init h).sigs ∧
+    CacheOK (stepS (run init h) op given).1 := by
+  have hs := rejected_sim (C03_cache_valid h) (C03_ids_exact h) op given e hr
+  obtain ⟨hc, hi, hg, _⟩ := sim_obs hs
+  exact ⟨hc, hi, hg, hs.2.1⟩
+
+/-- Histories that MIX rejected edits: a rejected call can be deleted from any history without changing anything
+    that comes later — final content, ids, signatures, every answer, every later acceptance or rejection. -/
+theorem C03_rejected_transparent (h : List HOp) (op : Op) (given) (e : Err)
+    (hr : (stepS (run init h) op given).2 = .error e) (h' : List HOp) :
+    (run init (h ++ .edit op given :: h')).content = (run init (h ++ h')).content ∧
+    (run init (h ++ .edit op given :: h')).ids = (run init (h ++ h')).ids ∧
+    (run init (h ++ .edit op given :: h')).sigs = (run init (h ++ h')).sigs ∧
+    (∀ q, (query (run init (h ++ .edit op given :: h')) q).2 = (query (run init (h ++ h')) q).2) ∧
+    (∀ op' g', (stepS (run init (h ++ .edit op given :: h')) op' g').2
+      = (stepS (run init (h ++ h')) op' g').2) := by
+  have hs := rejected_sim (C03_cache_valid h) (C03_ids_exact h) op given e hr
+  rw [run_append, run_append]
+  exact sim_obs (run_sim h' hs)
+
+/-- the same for a query that raised (missing dependency, arity mismatch, unknown label …): asking is invisible too -/
+theorem C03_query_transparent (h : List HOp) (q0 : Query) (h' : List HOp) :
+    (run init (h ++ .ask q0 :: h')).content = (run init (h ++ h')).content ∧
+    (run init (h ++ .ask q0 :: h')).ids = (run init (h ++ h')).ids ∧
+    (∀ q, (query (run init (h ++ .ask q0 :: h')) q).2 = (query (run init (h ++ h')) q).2) ∧
+    (∀ op' g', (stepS (run init (h ++ .ask q0 :: h')) op' g').2 = (stepS (run init (h ++ h')) op' g').2) := by
+  have hs : Sim (query (run init h) q0).1 (run init h) := by
+    refine ⟨?_, query_cacheOK _ q0 (C03_cache_valid h), C03_cache_valid h⟩
+    rcases query_fst (run init h) q0 with h1 | h1
+    · rw [h1]
+    · rw [h1]
+      exact forget_eq_iff.mpr ⟨(ensureCache_same _).1, (ensureCache_same _).2, ensureCache_sigs _⟩
+  rw [run_append, run_append]
+  obtain ⟨hc, hi, _, ha, ho⟩ := sim_obs (run_sim h' hs)
+  exact ⟨hc, hi, ha, ho⟩
+
 /-! ## non-vacuity -/
 
 /-- an explicit history — build, query, update, remove, re-add the freed name under another kind, query —
@@ -492,5 +562,13 @@ example : (match (query (run init (badReadout ++ [.edit (.remove_readout "ro")])
     | .ok (.assoc l) => l == [("x", (1 : Rat))] | _ => false) = true := by decide +kernel
 
 example : arityOK (run init badReadout).sigs (run init badReadout).content = false := by decide +kernel
+
+/-- `C03_rejected_transparent` is not vacuous: a rejected call inside a history (here after a query filled the cache,
+    and the rejected call carries `@_invalidate_cache`, so the two runs really differ in their caches) -/
+example : (match (stepS (run init (demoHistory.take 4)) (.add_parameter "x" (.plain 7)) []).2 with
+    | .error (.nameError n) => n == "x" | _ => false) = true := by decide +kernel
+
+example : (run init (demoHistory.take 4 ++ [.edit (.add_parameter "x" (.plain 7))])).cache.isNone = true ∧
+    (run init (demoHistory.take 4)).cache.isSome = true := by decide +kernel
 
 end Mxl.C03
